@@ -3232,6 +3232,16 @@ func (ts *TokenStore) revokeCommon(ctx context.Context, req *logical.Request, da
 		return nil, err
 	}
 	if te == nil {
+		// The entry may still exist but be marked as pending revocation
+		// because an earlier revocation was interrupted (storage error,
+		// restart). Resume that revocation instead of reporting success
+		// with the token's children, leases and cubbyhole left behind.
+		te, err = ts.lookupTainted(ctx, id)
+		if err != nil {
+			return nil, err
+		}
+	}
+	if te == nil {
 		return nil, nil
 	}
 
